@@ -32,6 +32,7 @@ Obj(ks, vs) == [k |-> "obj", ks |-> ks, vs |-> vs]
 Val(v) == [k |-> "val", v |-> v]
 Bad == [k |-> "bad"]
 SourcePool == {Obj(<<"a">>, <<IntV(1)>>), Obj(<<"a", "b">>, <<IntV(2), IntV(3)>>), Obj(<<"b">>, <<StrV("s")>>), Obj(<<>>, <<>>),
+               Obj(<<"a">>, <<NullV>>),                  \* a later null overrides an earlier value like any other value
                Obj(<<"value_1">>, <<StrV("n")>>),        \* an object key spelled like the name an unnamed value gets: later sources still win, by order of appearance
                Val(IntV(7)), Val(StrV("t")), Val(ListV(<<IntV(1)>>)), Val(NullV), Bad}
 InputNames == {"a", "b", "value_1", "value_2", "value_3", "zz"}
